@@ -30,6 +30,9 @@ import (
 //        | (n3 n<settle>) publish one message, wait until the client has it, then end the handler (clean end of the body);
 //                      settle=1: then wait until Joe has registered the client's resubscription
 //        | (n4)        wait until the client has caught up
+//        | (n5 n<s>)   (ValidReplayer with automatic IDs only) once caught up, advance the replayer's clock by s seconds (TTL 1000 s)
+//        | (n6)        cut the connection silently (client: timeout; server: nothing, writes swallowed) and wait for the resubscription
+//        | (n7)        writes on silently cut connections start to fail
 // line written: input = (scenario (published ...) (attempt ...) flags), observed = n1
 //   published = (x<id> x<type> (x<data string> ...))            in publish order
 //   attempt   = (hdropt n<outcome: 0 body read, 1 no response> x<body bytes read> n<ending: 0 EOF, 1 error> ((x<id> x<type> x<data>) ...))
@@ -69,9 +72,13 @@ func (pipeAddr) String() string  { return "pipe" }
 type cutConn struct {
 	net.Conn
 	budget *atomic.Int64 // <0: unlimited
+	dead   atomic.Bool
 }
 
 func (c *cutConn) Read(p []byte) (int, error) {
+	if c.dead.Load() {
+		return 0, errors.New("read: connection timed out")
+	}
 	b := c.budget.Load()
 	if b == 0 {
 		c.budget.Store(-1)
@@ -90,6 +97,35 @@ func (c *cutConn) Read(p []byte) (int, error) {
 	return n, err
 }
 
+// srvConn is the server's end of a connection.  mode 0: normal.  mode 1 ("silently cut": the peer vanished without a
+// FIN/RST): reads see nothing - not even the close - and writes are swallowed.  mode 2: writes fail, as they do once
+// the kernel gives up retransmitting.
+type srvConn struct {
+	net.Conn
+	mode   atomic.Int32
+	gone   chan struct{}
+	goneMu sync.Once
+}
+
+func (c *srvConn) Read(p []byte) (int, error) {
+	n, err := c.Conn.Read(p)
+	if err != nil && c.mode.Load() != 0 {
+		<-c.gone // hide the close of the peer
+		return 0, errors.New("use of closed connection")
+	}
+	return n, err
+}
+func (c *srvConn) Write(p []byte) (int, error) {
+	switch c.mode.Load() {
+	case 1:
+		return len(p), nil
+	case 2:
+		return 0, errors.New("write: connection timed out")
+	}
+	return c.Conn.Write(p)
+}
+func (c *srvConn) Close() error { c.goneMu.Do(func() { close(c.gone) }); return c.Conn.Close() }
+
 type e2eAttempt struct {
 	hdr     string
 	hasHdr  bool
@@ -107,6 +143,10 @@ type e2eRun struct {
 	bodyCut   atomic.Int64
 	rawCut    atomic.Int64
 	cancelCur atomic.Pointer[context.CancelFunc]
+	curSrv    atomic.Pointer[srvConn]
+	curCli    atomic.Pointer[cutConn]
+	srvConns  []*srvConn
+	clock     atomic.Int64 // seconds added to the replayer's clock
 	curEvents atomic.Int64 // events received on the current attempt
 	lis       *pipeListener
 	inner     http.RoundTripper
@@ -223,7 +263,10 @@ func execE2E(in val.V) val.V {
 	case 4, 5:
 		replayer, _ = sse.NewFiniteReplayer(6, auto)
 	default:
-		replayer, _ = sse.NewValidReplayer(time.Hour, auto)
+		vr, _ := sse.NewValidReplayer(1000*time.Second, auto)
+		start := time.Now()
+		vr.Now = func() time.Time { return start.Add(time.Duration(run.clock.Load()) * time.Second) }
+		replayer = vr
 	}
 	var registrations atomic.Int64
 	sse.VerifSetHook(func(point string, _, _ any) {
@@ -246,14 +289,21 @@ func execE2E(in val.V) val.V {
 	tr := &http.Transport{
 		DialContext: func(ctx context.Context, _, _ string) (net.Conn, error) {
 			c1, c2 := net.Pipe()
+			sc := &srvConn{Conn: c2, gone: make(chan struct{})}
 			select {
-			case run.lis.ch <- c2:
+			case run.lis.ch <- sc:
 			case <-run.lis.closed:
 				return nil, errors.New("listener closed")
 			case <-ctx.Done():
 				return nil, ctx.Err()
 			}
-			return &cutConn{Conn: c1, budget: &run.rawCut}, nil
+			cc := &cutConn{Conn: c1, budget: &run.rawCut}
+			run.mu.Lock()
+			run.srvConns = append(run.srvConns, sc)
+			run.mu.Unlock()
+			run.curSrv.Store(sc)
+			run.curCli.Store(cc)
+			return cc, nil
 		},
 		DisableKeepAlives: true,
 	}
@@ -380,6 +430,34 @@ func execE2E(in val.V) val.V {
 					time.Sleep(100 * time.Microsecond)
 				}
 			}
+		case 5:
+			// the replayer's clock advances (events the client already has may expire); only with automatic IDs, where a
+			// resume point that is gone means "everything still stored", and only once the client has caught up
+			if kind == 3 {
+				if caughtUp = waitRecv(owed(), 5*time.Second); caughtUp {
+					run.clock.Add(int64(st.At(1).Int()))
+				}
+			}
+		case 6:
+			// the connection is cut SILENTLY: the client sees a timeout, the server sees nothing and its writes vanish
+			regs := registrations.Load()
+			if sc, cc := run.curSrv.Load(), run.curCli.Load(); sc != nil && cc != nil && sc.mode.Load() == 0 {
+				sc.mode.Store(1)
+				cc.dead.Store(true)
+				cc.Conn.SetReadDeadline(time.Now())
+				for d := time.Now().Add(2 * time.Second); registrations.Load() == regs && time.Now().Before(d); {
+					time.Sleep(100 * time.Microsecond)
+				}
+			}
+		case 7:
+			// the server's writes on silently cut connections start to fail
+			run.mu.Lock()
+			for _, sc := range run.srvConns {
+				if sc.mode.Load() == 1 {
+					sc.mode.Store(2)
+				}
+			}
+			run.mu.Unlock()
 		default:
 			caughtUp = waitRecv(owed(), 5*time.Second)
 		}
@@ -390,6 +468,13 @@ func execE2E(in val.V) val.V {
 	if caughtUp {
 		caughtUp = waitRecv(owed(), 10*time.Second)
 	}
+	run.mu.Lock()
+	for _, sc := range run.srvConns {
+		if sc.mode.Load() == 1 {
+			sc.mode.Store(2)
+		}
+	}
+	run.mu.Unlock()
 	cancelClient()
 	select {
 	case <-connDone:
@@ -400,6 +485,11 @@ func execE2E(in val.V) val.V {
 	scancel()
 	hs.Close()
 	run.lis.Close()
+	run.mu.Lock()
+	for _, sc := range run.srvConns {
+		sc.Close()
+	}
+	run.mu.Unlock()
 
 	run.mu.Lock()
 	defer run.mu.Unlock()
@@ -446,8 +536,19 @@ func genE2EScenario(r *rng.R, thorough bool) val.V {
 			}
 			steps = append(steps, val.L(val.N(2), val.Int(c)))
 			pub()
-		case x < 85:
+		case x < 82:
 			steps = append(steps, val.L(val.N(3), val.Bool(r.Bool())))
+		case x < 88:
+			steps = append(steps, val.L(val.N(5), val.Int(rng.Pick(r, []int{300, 600, 600, 1100}))))
+			pub()
+		case x < 94:
+			// a silent cut, a resubscription next to the stale session, then the stale connection's writes fail
+			steps = append(steps, val.L(val.N(6)))
+			if r.Bool() {
+				pub()
+			}
+			steps = append(steps, val.L(val.N(7)))
+			pub()
 		default:
 			steps = append(steps, val.L(val.N(4)))
 		}
@@ -481,6 +582,22 @@ func genE2E(c *Ctx) {
 			}
 		}
 		scen = append(scen, val.L(val.Int(kind), val.List(steps)))
+	}
+	// directed: stale sessions next to fresh ones; expiry of received events in a ValidReplayer with automatic IDs
+	for kind := 0; kind < 6; kind++ {
+		steps := []val.V{}
+		for i := 0; i < 7; i++ {
+			steps = append(steps, val.L(val.N(6)), val.L(val.N(7)), val.L(val.N(0), val.N(2), val.Int(i)), val.L(val.N(4)))
+		}
+		scen = append(scen, val.L(val.Int(kind), val.List(steps)))
+	}
+	for variant := 0; variant < 6; variant++ {
+		steps := []val.V{val.L(val.N(0), val.Int(1+variant%4), val.N(0)), val.L(val.N(4)), val.L(val.N(5), val.N(600)),
+			val.L(val.N(0), val.N(3), val.N(1)), val.L(val.N(4)), val.L(val.N(5), val.N(600))}
+		for i := 0; i < 6; i++ {
+			steps = append(steps, val.L(val.N(0), val.N(1), val.N(2)), val.L(val.N(4)), val.L(val.N(1), val.N(0)), val.L(val.N(0), val.N(2), val.N(3)), val.L(val.N(4)))
+		}
+		scen = append(scen, val.L(val.N(3), val.List(steps)))
 	}
 	for i := 0; i < n; i++ {
 		scen = append(scen, genE2EScenario(c.R, c.Thorough))
